@@ -274,6 +274,15 @@ def expand_closures(facts, p, t, table, depth, evmap=None):
             except (T.TooComplex, RecursionError, KeyError, IndexError, TypeError, AssertionError):
                 table['paths'][cid] = [{'conds': [], 'events': [['unsummarisable', key]], 'writes': [], 'ret': None, 'end': 'return'}]
             return ('#clo', cid)
+    if is_clo or is_fn:
+        # not summarised (depth, body not in the workspace): at least pin the body it denotes -- the def-path hash of a
+        # closure is the same for two different closure bodies written at the same place
+        h = t[1][2] if is_clo else t[2]
+        b = facts.by_hash.get(h)
+        fp = hashlib.sha256(json.dumps(_strip_lines(b['blocks']), sort_keys=True).encode()).hexdigest()[:12] if b is not None else h
+        if is_clo:
+            return ('agg', ('closure', t[1][1], fp), tuple(expand_closures(facts, p, x, table, depth, evmap) for x in t[2]))
+        return ('fnitem', t[1], fp, t[3])
     return tuple(expand_closures(facts, p, x, table, depth, evmap) for x in t)
 
 
@@ -312,6 +321,9 @@ def canon_path(facts, p, table, depth=0, skip=0, outer=None):
         conds.append((d, v))
     nm = Namer(evmap)
     evs = []
+
+    def X(t):
+        return expand_closures(facts, p, t, table, depth, evmap)
     for e in kept:
         kind = e['kind']
         if kind == 'call':
@@ -319,14 +331,14 @@ def canon_path(facts, p, table, depth=0, skip=0, outer=None):
             evs.append(('call', e.get('rpath') or e['path'], nm.rn(norm(tuple(e['args']))), nm.rn(norm(e.get('f'))) if e.get('f') else None,
                         tuple(norm(a) for a in e['callee']['args']) if e.get('callee') else None, rv, callee_fingerprint(facts, e.get('callee'), table.get('root'))))
         elif kind == 'assert':
-            evs.append(('assert', nm.rn(norm(e['cond'])), e['expected'], e['msg']))
+            evs.append(('assert', nm.rn(norm(X(e['cond']))), e['expected'], e['msg']))
         elif kind == 'loop-enter':
-            evs.append(('loop-enter', nm.rn(norm(tuple(sorted((str(k2), v2) for k2, v2 in e.get('before', {}).items())))),
-                        nm.rn(norm(tuple(sorted(((loc, v2) for loc, v2 in (e.get('heap_before') or {}).items()), key=repr))))))
+            evs.append(('loop-enter', nm.rn(norm(tuple(sorted((str(k2), X(v2)) for k2, v2 in e.get('before', {}).items())))),
+                        nm.rn(norm(tuple(sorted(((loc, X(v2)) for loc, v2 in (e.get('heap_before') or {}).items()), key=repr))))))
         elif kind == 'loop-back':
-            evs.append(('loop-back', nm.rn(norm(tuple(sorted((str(k2), v2) for k2, v2 in e.get('carried', {}).items()))))))
+            evs.append(('loop-back', nm.rn(norm(tuple(sorted((str(k2), X(v2)) for k2, v2 in e.get('carried', {}).items()))))))
         else:
-            evs.append((kind, nm.rn(norm(tuple(e.get('args', ()))))))
+            evs.append((kind, nm.rn(norm(X(tuple(e.get('args', ())))))))
     # final writes: aggregate assignments are split into per-field writes; each write carries the value the location
     # held on entry, so that a store of the value already there (under the path's conditions) can be recognised
     eng0 = T.Engine(facts)
